@@ -71,6 +71,18 @@ T = {
          "Closed finite systems; no claim on unfair infinite schedules.", "5 C20"),
 }
 
+# round 10: units added to several checks (technique stays generated-input search against the same oracles)
+FAULT_UNITS = {
+ "faults": ["C01", "C02", "C03", "C04", "C08", "C09", "C11", "C12", "C13", "C14", "C15", "C16", "C17", "C19"],
+ "inject": ["C01", "C02", "C06", "C07", "C19"],
+}
+for _pid in FAULT_UNITS["faults"]:
+    T[_pid] = (T[_pid][0] + "; generated fault histories (failed / rejected operations interleaved with valid ones, reference-predicted results)",) + T[_pid][1:]
+for _pid in FAULT_UNITS["inject"]:
+    T[_pid] = (T[_pid][0] + "; fault injection at every executed line of one operation (sys.monitoring), later results against the reference",) + T[_pid][1:]
+T["C20"] = (T["C20"][0] + "; the same systems after a refused writer_release() on the free lock",) + T["C20"][1:]
+
+
 def main():
     checks, na = [], []
     for pid in sorted(T):
